@@ -12,6 +12,7 @@ def table : List ModelEntries :=
   [ Entries.stopsource
   , Entries.scopev2
   , Entries.scopev1
+  , Entries.scopev0
   ]
 
 def lookup (m c : String) : Option Entry :=
